@@ -55,7 +55,7 @@ shutil.rmtree(logdir, ignore_errors=True); os.makedirs(logdir)
 cmd = ['cargo', '+nightly', 'fuzz', 'run', '-s', 'none', '--fuzz-dir', f'{V}/fuzz', target, work, '--',
        f'-max_total_time={seconds}', f'-jobs={ncpu}', f'-workers={ncpu}', f'-artifact_prefix={arts}', '-timeout=20', '-rss_limit_mb=2048', '-malloc_limit_mb=1024',
        f'-max_len={maxlen}', '-len_control=0', f'-seed={seed + 1}', '-print_final_stats=1', '-detect_leaks=0', '-reload=1']
-deadline = seconds + 600
+deadline = seconds + 150   # (a libFuzzer process occasionally deadlocks inside its own crash / alarm handler: the campaign is then cut here)
 try:
     r = subprocess.run(cmd, env=env, capture_output=True, text=True, timeout=deadline, cwd=logdir)
     log = r.stderr + r.stdout
